@@ -1,3 +1,6 @@
+import json
+import sys
+import os
 """C17 - Ensemble structures use every feature, fill each lattice, respect monotone slots."""
 import itertools
 import numpy as np
@@ -642,6 +645,63 @@ def eval_cases(ctx, descs):
       cases.append(eval_cover(ctx, d))
     elif kind == "crystals":
       cases.append(eval_crystals(ctx, d))
+    elif kind == "hashseed":
+      # replay of a cross-interpreter determinism failure
+      cs = {"random": [], "rtl": []}
+      cs[d["which"]].append(d["config"])
+      res = _hashseed_probe(cs, {})
+      cases.append(Case(d, coq=None, pred_fail=res[0][1] if res else None, nontrivial=True, klass="hashseed"))
     else:
       raise ValueError("unknown case kind %r" % (kind,))
   return cases
+
+
+def extra(ctx, stats):
+  """Cross-interpreter determinism (the property: structures are a function of the seed): the same configurations are
+  expanded in two FRESH interpreters that differ only in Python's string-hash randomisation (PYTHONHASHSEED), as any
+  two ordinary runs do; the check itself runs with PYTHONHASHSEED=0, which would hide an iteration over a set."""
+  import subprocess
+  rng = ctx.rng
+  cases = {"random": [], "rtl": []}
+  for _ in range(ctx.n(12, 60)):
+    n = rng.randint(2, 10)
+    rank = rng.randint(2, min(4, n))
+    need = -(-n // rank)
+    cases["random"].append([n, rank, need + rng.randint(0, 3), rng.randrange(1000)])
+  for _ in range(ctx.n(8, 40)):
+    n_inc, n_unc = rng.randint(0, 4), rng.randint(0, 4)
+    if n_inc + n_unc == 0:
+      n_unc = 2
+    rank = rng.randint(1, 3)
+    need = -(-(n_inc + n_unc) // rank)
+    cases["rtl"].append([n_inc, n_unc, rank, need + rng.randint(0, 2), rng.randrange(1000), rng.random() < 0.5])
+  return _hashseed_probe(cases, stats)
+
+
+def _hashseed_probe(cases, stats):
+  import subprocess
+  child = os.path.join(os.path.dirname(os.path.abspath(__file__)), "c17_child.py")
+  procs = []
+  for hs in ("1", "4242"):
+    env = dict(os.environ, PYTHONHASHSEED=hs, TF_CPP_MIN_LOG_LEVEL="3")
+    procs.append(subprocess.Popen([sys.executable, "-W", "ignore", child, json.dumps(cases)], env=env,
+                                  stdout=subprocess.PIPE, stderr=subprocess.PIPE, text=True))
+  results = []
+  for pr in procs:
+    so, se = pr.communicate(timeout=900)
+    lines = [l for l in so.splitlines() if l.startswith("RESULT ")]
+    if pr.returncode != 0 or not lines:
+      return [("cross-interpreter-probe-failed", "the determinism probe could not run: %s" % se[-400:],
+               {"case": {"kind": "hashseed", "cases": cases}}, False)]
+    results.append(json.loads(lines[-1][len("RESULT "):]))
+  stats["cross_interpreter_structures_compared"] = len(cases["random"]) + len(cases["rtl"])
+  out = []
+  for kind in ("random", "rtl"):
+    for c, a, b in zip(cases[kind], results[0][kind], results[1][kind]):
+      if a != b:
+        msg = ("structure is not a function of the seed: %s config %r gives %r in one interpreter and %r in another "
+               "(PYTHONHASHSEED 1 vs 4242)" % (kind, c, a, b))
+        out.append(("structure-differs-between-interpreters", msg,
+                    {"case": {"kind": "hashseed", "which": kind, "config": c}, "clause": msg}, True))
+        break
+  return out
